@@ -49,7 +49,7 @@ MIN_COUNTERS = {'dbscan_catalogues': 40, 'dbscan_runs': 400, 'dbscan_links_check
                 'threshold_pairs_judged_aereg_rescaled': 100, 'aereg_noregroup_rows_checked': 50,
                 'whole_sphere_runs': 60, 'whole_sphere_runs_default_eps': 10, 'whole_sphere_runs_explicit_eps': 40,
                 'elliptical_catalogues_straddling_ra0': 8, 'norm_dist_contract': 1000, 'norm_dist_contract_polar_cap': 300, 'elliptical_catalogues_around_pole': 3,
-                'aereg_rows_dropped': 100, 'aereg_runs_uuids_shared': 3, 'aereg_runs_uuids_missing': 2,
+                'aereg_rows_dropped': 100, 'aereg_runs_several_tables': 5, 'aereg_secondary_tables_checked': 6, 'aereg_runs_uuids_shared': 3, 'aereg_runs_uuids_missing': 2,
                 'aereg_runs_uuids_empty': 2, 'aereg_runs_uuids_all_same': 2, 'aereg_dropped_group_members': 80, 'aereg_dropped_bridges': 30,
                 'aereg_dropped_brightest_of_group': 20}
 BATCHES_PER_JOB = 4
@@ -865,7 +865,18 @@ def _run_aereg(o, case):
                            drop=('uuid',) if um == 'missing' else ())
         if um != 'unique':
             o.count('aereg_runs_uuids_' + um)
-        out = os.path.join(work, 'out.csv')
+        # one or several output tables in one run (--table a.csv,b.vot,...), possibly onto stale files of those names
+        tables = case.get('tables', ['csv'])
+        outs = [os.path.join(work, 'out.' + e) for e in tables]
+        out = ','.join(outs)
+        STALE = b'stale file from an earlier run\n'
+        if case.get('stale'):
+            for e in tables:
+                with open(os.path.join(work, 'out_comp.' + e), 'wb') as f:
+                    f.write(STALE)
+        if len(tables) > 1:
+            o.count('aereg_runs_several_tables')
+            o.count('aereg_output_tables_requested', len(tables))
         argv = ['--input', inp, '--table', out, '--eps', repr(case['eps_arcmin'])]
         ratio = case.get('ratio')
         psfheader = bool(case.get('psfheader'))
@@ -888,6 +899,8 @@ def _run_aereg(o, case):
         if case.get('options_first'):
             argv = argv[4:] + argv[:4]
         shown = ' '.join(a if not a.startswith(work) else os.path.basename(a) for a in argv if a not in (inp, out, '--input', '--table'))
+        if len(tables) > 1 or case.get('stale'):
+            shown += ' --table ' + ','.join('out.' + e for e in tables) + (' (onto stale files)' if case.get('stale') else '')
         ctx = {'entry': 'AeReg', 'argv': shown, 'eps_arcmin': case['eps_arcmin'], 'psf_columns': not nopsf}
         if droppers:
             ctx['rows_to_drop'] = droppers
@@ -918,11 +931,34 @@ def _run_aereg(o, case):
             return
         o.n_eval += 1
         o.count('aereg_runs')
-        res = os.path.join(work, 'out_comp.csv')
-        if rc != 0 or not os.path.exists(res):
-            o.violate('no_output', dict(ctx, returncode=rc, files=sorted(os.listdir(work))), mech)
-            return
+        # every requested table must exist afresh
+        for e in tables:
+            f_ = os.path.join(work, 'out_comp.' + e)
+            fresh = os.path.exists(f_) and open(f_, 'rb').read(len(STALE)) != STALE
+            if rc != 0 or not fresh:
+                o.violate('no_output', dict(ctx, returncode=rc, table='out.' + e, exists=os.path.exists(f_),
+                                            stale_content_left=os.path.exists(f_) and not fresh,
+                                            files=sorted(os.listdir(work))), mech)
+                return
+        primary = [e for e in tables if e in ('csv', 'tab')][0]
+        res = os.path.join(work, 'out_comp.' + primary)
         t = ascii.read(res)
+        # the other tables must hold the same regrouped catalogue (row ids, labels); the primary is judged in full below
+        for e in tables:
+            if e == primary:
+                continue
+            from astropy.table import Table
+            with warnings.catch_warnings():
+                warnings.simplefilter('ignore')
+                t2 = ascii.read(os.path.join(work, 'out_comp.' + e)) if e in ('csv', 'tab', 'tex') else \
+                    Table.read(os.path.join(work, 'out_comp.' + e))
+            lab1 = sorted((str(r_), int(i_), int(s_)) for r_, i_, s_ in zip(t['ra_str'], t['island'], t['source']))
+            lab2 = sorted((str(r_), int(i_), int(s_)) for r_, i_, s_ in zip(t2['ra_str'], t2['island'], t2['source']))
+            o.count('aereg_secondary_tables_checked')
+            if lab1 != lab2:
+                o.violate('output_tables_differ', dict(ctx, table='out.' + e, rows=[len(t), len(t2)],
+                                                       first_difference=[x for x in zip(lab1, lab2) if x[0] != x[1]][:2]))
+                return
         if um != 'unique':
             ctx['uuids_of_input'] = um
         uu = [str(u) for u in t['ra_str']]
@@ -1140,6 +1176,14 @@ def cases(seed, tier):
                 'seed': [0, 'aereg', 'uuid', 'noregroup']})
     out.append({'kind': 'aereg', 'eps_arcmin': 4.0, 'offsets': OFFSETS, 'uuids': 'shared', 'ratio': 2.0,
                 'seed': [0, 'aereg', 'uuid', 'ratio']})
+    # several output tables in one run, also onto stale files of the same names
+    for k, (tb, extra) in enumerate(((['csv', 'vot'], {}), (['vot', 'csv'], {'stale': True}), (['csv', 'fits', 'tab'], {'stale': True}),
+                                     (['fits', 'tab', 'vot'], {'ratio': 2.0}), (['xml', 'csv'], {'noregroup': True}),
+                                     (['tab', 'csv'], {'droppers': 'compact', 'ratio': 0.5, 'stale': True}),
+                                     (['csv'], {'stale': True}))):
+        c = {'kind': 'aereg', 'eps_arcmin': 2.0, 'offsets': OFFSETS, 'tables': tb, 'seed': [0, 'aereg', 'tables', k]}
+        c.update(extra)
+        out.append(c)
     # ratio < 1 on the ordinary threshold catalogues (only what is written is judged)
     for e in (0.5, 4.0, 30.0):
         out.append({'kind': 'aereg', 'eps_arcmin': e, 'offsets': OFFSETS, 'ratio': 0.8, 'seed': [0, 'aereg', 'ratio<1', e]})
@@ -1232,6 +1276,7 @@ def cases(seed, tier):
         out.append({'kind': 'aereg', 'eps_arcmin': e2 if k % 3 == 1 else e, 'offsets': offs,
                     'ratio': [float(rng.uniform(1.0, 6.0)), None, float(rng.uniform(1.0, 2.0))][k % 3],
                     'psfheader': k % 3 == 1, 'noregroup': k % 5 == 4, 'debug': bool(k % 2),
+                    'tables': [['csv'], ['vot', 'tab'], ['csv', 'fits'], ['tab', 'xml', 'csv']][k % 4], 'stale': k % 2 == 0,
                     'seed': [seed, 'aereg-opt', k]})
         dr = ['nan', 'compact', 'zero', 'negative', 'zero_b'][k % 5]
         out.append({'kind': 'aereg', 'eps_arcmin': float(10 ** rng.uniform(-0.5, 0.8)), 'droppers': dr,
